@@ -52,12 +52,12 @@ theorem Thm.addTuple_sub (cur new : List Term) (h : Term) (hm : h ∈ Thm.addTup
     · exact Or.inl hm
     · exact Or.inr (List.mem_filter.1 hm).1
 
-theorem EnvOK.nil (M : Model) : EnvOK M [] [] := Forall2.nil
+theorem EnvOK.nil_snd (M : Model) : EnvOK M [] [] := Forall2.nil
 
 /-- a boolean term evaluates to 0 or 1 -/
 theorem sem_bool_lt (M : Model) (ρ : Valuation) (hρ : Admissible M ρ) (t : Term)
     (h : Term.checkedGetType [] t = .ok Ty.bool) : sem M ρ [] [] t < 2 := by
-  have := sem_lt M ρ hρ [] [] (EnvOK.nil M) t Ty.bool h
+  have := sem_lt M ρ hρ [] [] (EnvOK.nil_snd M) t Ty.bool h
   rwa [Model.size_bool] at this
 
 theorem Thm.checkThmType_iff (th : Thm) : Thm.checkThmType th = true ↔
@@ -128,15 +128,15 @@ theorem logicalKind_all_inv (A : Ty) (r : Nat × Ty) (h : logicalKind "all" A = 
     exact ⟨a, rfl, by simpa using h.symm⟩
   · cases h
 
-theorem logicalKind_equals (T : Ty) :
+theorem logicalKind_equals_snd (T : Ty) :
     logicalKind "equals" (Ty.fn T (Ty.fn T Ty.bool)) = some (0, T) := by
   simp [logicalKind, Ty.fn, Ty.bool]
 
-theorem logicalKind_implies :
+theorem logicalKind_implies_snd :
     logicalKind "implies" (Ty.fn Ty.bool (Ty.fn Ty.bool Ty.bool)) = some (1, Ty.bool) := by
   simp [logicalKind, Ty.fn, Ty.bool]
 
-theorem logicalKind_all (T : Ty) :
+theorem logicalKind_all_snd (T : Ty) :
     logicalKind "all" (Ty.fn (Ty.fn T Ty.bool) Ty.bool) = some (2, T) := by
   simp [logicalKind, Ty.fn, Ty.bool]
 
@@ -169,7 +169,7 @@ theorem Term.destForall_inv (p a : Term) (h : Term.destForall p = some a) :
     · cases h
   · cases h
 
-theorem Term.checked_comb_inv (bd : List Ty) (f a : Term) (S : Ty)
+theorem Term.checked_comb_inv_snd (bd : List Ty) (f a : Term) (S : Ty)
     (h : Term.checkedGetType bd (.comb f a) = .ok S) :
     ∃ ta rest, Term.checkedGetType bd f = .ok (.con "fun" (ta :: S :: rest)) ∧
       Term.checkedGetType bd a = .ok ta := by
@@ -226,8 +226,8 @@ def Term.allAt (T : Ty) (p : Term) : Term :=
 theorem Term.checked_eqAt_inv (bd : List Ty) (T S : Ty) (x y : Term)
     (h : Term.checkedGetType bd (Term.eqAt T x y) = .ok S) :
     Term.checkedGetType bd x = .ok T ∧ Term.checkedGetType bd y = .ok T ∧ S = Ty.bool := by
-  obtain ⟨ty, r1, h1, hy⟩ := Term.checked_comb_inv bd _ _ _ h
-  obtain ⟨tx, r2, h2, hx⟩ := Term.checked_comb_inv bd _ _ _ h1
+  obtain ⟨ty, r1, h1, hy⟩ := Term.checked_comb_inv_snd bd _ _ _ h
+  obtain ⟨tx, r2, h2, hx⟩ := Term.checked_comb_inv_snd bd _ _ _ h1
   simp only [Term.checkedGetType, Ty.fn, Ty.bool] at h2
   injection h2 with h2
   injection h2 with _ h2
@@ -243,8 +243,8 @@ theorem Term.checked_mkImplies_inv (bd : List Ty) (S : Ty) (a b : Term)
     (h : Term.checkedGetType bd (Term.mkImplies a b) = .ok S) :
     Term.checkedGetType bd a = .ok Ty.bool ∧ Term.checkedGetType bd b = .ok Ty.bool ∧
       S = Ty.bool := by
-  obtain ⟨ty, r1, h1, hy⟩ := Term.checked_comb_inv bd _ _ _ h
-  obtain ⟨tx, r2, h2, hx⟩ := Term.checked_comb_inv bd _ _ _ h1
+  obtain ⟨ty, r1, h1, hy⟩ := Term.checked_comb_inv_snd bd _ _ _ h
+  obtain ⟨tx, r2, h2, hx⟩ := Term.checked_comb_inv_snd bd _ _ _ h1
   simp only [Term.checkedGetType, Ty.fn, Ty.bool] at h2
   injection h2 with h2
   injection h2 with _ h2
@@ -259,7 +259,7 @@ theorem Term.checked_mkImplies_inv (bd : List Ty) (S : Ty) (a b : Term)
 theorem Term.checked_allAt_inv (bd : List Ty) (T S : Ty) (p : Term)
     (h : Term.checkedGetType bd (Term.allAt T p) = .ok S) :
     Term.checkedGetType bd p = .ok (Ty.fn T Ty.bool) ∧ S = Ty.bool := by
-  obtain ⟨tp, r1, h1, hp⟩ := Term.checked_comb_inv bd _ _ _ h
+  obtain ⟨tp, r1, h1, hp⟩ := Term.checked_comb_inv_snd bd _ _ _ h
   simp only [Term.checkedGetType, Ty.fn, Ty.bool] at h1
   injection h1 with h1
   injection h1 with _ h1
@@ -315,15 +315,15 @@ theorem all_inv (p a : Term) (S : Ty) (hd : Term.destForall p = some a)
 
 theorem sigOK_eqAt (T : Ty) (x y : Term) (hx : sigOK x = true) (hy : sigOK y = true) :
     sigOK (Term.eqAt T x y) = true := by
-  simp [Term.eqAt, sigOK, logicalKind_equals, hx, hy]
+  simp [Term.eqAt, sigOK, logicalKind_equals_snd, hx, hy]
 
 theorem sigOK_mkImplies (x y : Term) (hx : sigOK x = true) (hy : sigOK y = true) :
     sigOK (Term.mkImplies x y) = true := by
-  simp [Term.mkImplies, sigOK, logicalKind_implies, hx, hy]
+  simp [Term.mkImplies, sigOK, logicalKind_implies_snd, hx, hy]
 
 theorem sigOK_allAt (T : Ty) (x : Term) (hx : sigOK x = true) :
     sigOK (Term.allAt T x) = true := by
-  simp [Term.allAt, sigOK, logicalKind_all, hx]
+  simp [Term.allAt, sigOK, logicalKind_all_snd, hx]
 
 theorem Term.mkEq_inv (s t e : Term) (h : Term.mkEq s t = .ok e) :
     ∃ T, Term.getType [] s = .ok T ∧ e = Term.eqAt T s t := by
@@ -340,8 +340,8 @@ theorem holds_eqAt (M : Model) (ρ : Valuation) (hρ : Admissible M ρ) (T : Ty)
     (hx : Term.checkedGetType [] x = .ok T) (hy : Term.checkedGetType [] y = .ok T) :
     holds M ρ (Term.eqAt T x y) ↔ sem M ρ [] [] x = sem M ρ [] [] y := by
   unfold holds Term.eqAt
-  rw [sem_equals M ρ [] [] T x y (sem_lt M ρ hρ [] [] (EnvOK.nil M) x T hx)
-    (sem_lt M ρ hρ [] [] (EnvOK.nil M) y T hy)]
+  rw [sem_equals M ρ [] [] T x y (sem_lt M ρ hρ [] [] (EnvOK.nil_snd M) x T hx)
+    (sem_lt M ρ hρ [] [] (EnvOK.nil_snd M) y T hy)]
   split <;> simp_all
 
 theorem holds_mkImplies (M : Model) (ρ : Valuation) (hρ : Admissible M ρ) (a b : Term)
@@ -635,7 +635,7 @@ theorem sigOK_substBoundAt (u : Term) (hu : sigOK u = true) (s : Term) (hs : sig
   | var n T => intro _; exact hs
   | const n T => intro _; exact hs
 
-theorem Term.checked_abs_inv (bd : List Ty) (x : String) (T S : Ty) (b : Term)
+theorem Term.checked_abs_inv_snd (bd : List Ty) (x : String) (T S : Ty) (b : Term)
     (h : Term.checkedGetType bd (.abs x T b) = .ok S) :
     ∃ tb, Term.checkedGetType (T :: bd) b = .ok tb ∧ S = Ty.fn T tb := by
   simp only [Term.checkedGetType, bind, Except.bind] at h
@@ -661,12 +661,12 @@ theorem Term.substBoundAt_irrel (hi : List Ty) (u u' : Term)
   | comb f a ihf iha =>
     intro lo S h
     simp only [Term.substBoundAt] at h ⊢
-    obtain ⟨ta, rest, h1, h2⟩ := Term.checked_comb_inv _ _ _ _ h
+    obtain ⟨ta, rest, h1, h2⟩ := Term.checked_comb_inv_snd _ _ _ _ h
     rw [ihf lo _ h1, iha lo _ h2]
   | abs x T b ih =>
     intro lo S h
     simp only [Term.substBoundAt] at h ⊢
-    obtain ⟨tb, h1, -⟩ := Term.checked_abs_inv _ _ _ _ _ h
+    obtain ⟨tb, h1, -⟩ := Term.checked_abs_inv_snd _ _ _ _ _ h
     have := ih (T :: lo) tb h1
     simp only [List.length_cons] at this
     rw [this]
@@ -707,7 +707,7 @@ theorem betaConv_sound (t : Term) (th : Thm) (ht : sigOK t = true)
       refine ⟨fun h hm => (nomatch hm), sigOK_eqAt S _ _ ?_ (sigOK_substBoundAt a ht.2 b ht.1 0)⟩
       simp [sigOK, ht.1, ht.2]
     · intro M ρ hρ hh
-      exact (holds_eqAt M ρ hρ S _ _ hl hr).2 (sem_beta M ρ hρ [] [] (EnvOK.nil M) x T S b a hl).symm
+      exact (holds_eqAt M ρ hρ S _ _ hl hr).2 (sem_beta M ρ hρ [] [] (EnvOK.nil_snd M) x T S b a hl).symm
   · cases ht'
 
 theorem forallElim_sound (s : Term) (th1 th : Thm) (hs : sigOK s = true) (h1 : Good th1)
@@ -726,7 +726,7 @@ theorem forallElim_sound (s : Term) (th1 th : Thm) (hs : sigOK s = true) (h1 : G
       have hT : T = ts := by simpa using hne
       subst hT
       obtain ⟨T', hp, habs, hsabs⟩ := all_inv _ _ _ hd h1.prop_sig h1.prop_bool
-      obtain ⟨tb, hb, hfn⟩ := Term.checked_abs_inv _ _ _ _ _ habs
+      obtain ⟨tb, hb, hfn⟩ := Term.checked_abs_inv_snd _ _ _ _ _ habs
       obtain ⟨rfl, rfl⟩ := Ty.fn_inj hfn
       have hw := (Thm.checkThmType_iff _).1 hwt
       simp only [sigOK] at hsabs
@@ -734,7 +734,7 @@ theorem forallElim_sound (s : Term) (th1 th : Thm) (hs : sigOK s = true) (h1 : G
       intro M ρ hρ H
       rw [hp] at H
       unfold Term.allAt at H
-      rw [holds_all_abs M ρ hρ _ x T' b hb (logicalKind_all T')] at H
+      rw [holds_all_abs M ρ hρ _ x T' b hb (logicalKind_all_snd T')] at H
       unfold holds
       by_cases hc : ∃ T0, Term.checkedGetType [] s = .ok T0
       · obtain ⟨T0, hT0⟩ := hc
@@ -744,7 +744,7 @@ theorem forallElim_sound (s : Term) (th1 th : Thm) (hs : sigOK s = true) (h1 : G
         have := sem_substBoundAt M ρ [] [] [] [] rfl T' s b hts
         simp only [List.nil_append, List.length_nil] at this
         rw [this]
-        exact H _ (sem_lt M ρ hρ [] [] (EnvOK.nil M) s T' hT0)
+        exact H _ (sem_lt M ρ hρ [] [] (EnvOK.nil_snd M) s T' hT0)
       · have hc' : ∀ T0, Term.checkedGetType [] s ≠ .ok T0 := fun T0 h0 => hc ⟨T0, h0⟩
         have e := Term.substBoundAt_irrel [] s (.var "x" T') hc' b [] Ty.bool hw.2
         simp only [List.length_nil] at e
@@ -806,7 +806,7 @@ theorem varKey_of_isVarLike (x : Term) (h : Term.isVarLike x = true) :
   · exact ⟨0, _, rfl⟩
   · exact ⟨1, _, rfl⟩
 
-theorem Term.mkLambda_inv (x t l : Term) (h : Term.mkLambda x t = .ok l) :
+theorem Term.mkLambda_inv_snd (x t l : Term) (h : Term.mkLambda x t = .ok l) :
     Term.isVarLike x = true ∧ ∃ b, Term.abstractOverAt x 0 t = .ok b ∧
       l = .abs (Term.nameOf x) (Term.typeOfAtom x) b := by
   unfold Term.mkLambda at h
@@ -821,11 +821,11 @@ theorem Term.mkLambda_inv (x t l : Term) (h : Term.mkLambda x t = .ok l) :
 
 theorem sigOK_mkLambda (x t l : Term) (h : Term.mkLambda x t = .ok l) (ht : sigOK t = true) :
     sigOK l = true := by
-  obtain ⟨-, b, hb, rfl⟩ := Term.mkLambda_inv x t l h
+  obtain ⟨-, b, hb, rfl⟩ := Term.mkLambda_inv_snd x t l h
   simp only [sigOK]
   exact sigOK_abstractOverAt x t 0 b hb ht
 
-theorem Term.mkForall_inv (x t q : Term) (h : Term.mkForall x t = .ok q) :
+theorem Term.mkForall_inv_snd (x t q : Term) (h : Term.mkForall x t = .ok q) :
     Term.isVarLike x = true ∧ ∃ l, Term.mkLambda x t = .ok l ∧
       q = Term.allAt (Term.typeOfAtom x) l := by
   unfold Term.mkForall at h
@@ -862,7 +862,7 @@ theorem forallIntr_sound (x : Term) (th1 th : Thm) (h1 : Good th1)
     · cases h
     · obtain ⟨q, hq, h⟩ := Thm.liftT_bind_ok _ _ _ h
       cases h
-      obtain ⟨hvl, l, hl, rfl⟩ := Term.mkForall_inv _ _ _ hq
+      obtain ⟨hvl, l, hl, rfl⟩ := Term.mkForall_inv_snd _ _ _ hq
       obtain ⟨k, n, hk⟩ := varKey_of_isVarLike x hvl
       refine ⟨hwt, ?_, ?_⟩
       · rw [Thm.sigOK_iff]
@@ -886,7 +886,7 @@ theorem abstraction_sound (x : Term) (th1 th : Thm) (h1 : Good th1)
       obtain ⟨e, he, h⟩ := Thm.liftT_bind_ok _ _ _ h
       cases h
       obtain ⟨S, hp, ht1, ht2, hs1, hs2⟩ := eq_inv _ t1 t2 _ hd h1.prop_sig h1.prop_bool
-      have hvl := (Term.mkLambda_inv _ _ _ hl1).1
+      have hvl := (Term.mkLambda_inv_snd _ _ _ hl1).1
       obtain ⟨k, n, hk⟩ := varKey_of_isVarLike x hvl
       have c1 := checked_mkLambda x k n _ hk t1 l1 S ht1 hl1
       have c2 := checked_mkLambda x k n _ hk t2 l2 S ht2 hl2
@@ -899,8 +899,8 @@ theorem abstraction_sound (x : Term) (th1 th : Thm) (h1 : Good th1)
       · intro M ρ hρ hh
         show holds M ρ (Term.eqAt _ l1 l2)
         rw [holds_eqAt M ρ hρ _ l1 l2 c1 c2]
-        have b1 := sem_lt M ρ hρ [] [] (EnvOK.nil M) l1 _ c1
-        have b2 := sem_lt M ρ hρ [] [] (EnvOK.nil M) l2 _ c2
+        have b1 := sem_lt M ρ hρ [] [] (EnvOK.nil_snd M) l1 _ c1
+        have b2 := sem_lt M ρ hρ [] [] (EnvOK.nil_snd M) l2 _ c2
         rw [Model.size_fn] at b1 b2
         apply code_ext _ _ _ _ b1 b2
         intro v hv
